@@ -79,7 +79,29 @@ func shortKey(k string) string {
 	return k
 }
 
+// ctxDoneKey: per-context "observed done" flag (a context never becomes un-done).
+func ctxDoneKey(ctx Term) cellKey { return cellKey{0, "ctxdone:" + ctx.S} }
+
+// ctxOfDoneChan: for `<-ctx.Done()` returns the context term.
+func (fc *FnCtx) ctxOfDoneChan(fr *Frame, st *State, chv ssa.Value) (Term, bool) {
+	c, ok := chv.(*ssa.Call)
+	if !ok || !c.Common().IsInvoke() || c.Common().Method.Name() != "Done" {
+		return Term{}, false
+	}
+	t, ok := fc.value(fr, st, c.Common().Value).(Term)
+	return t, ok
+}
+
 func (fc *FnCtx) chanRecv(fr *Frame, st *State, chv ssa.Value, ch Term, elem types.Type, cond Term) Val {
+	if ctx, ok := fc.ctxOfDoneChan(fr, st, chv); ok {
+		// receiving from Done() means the context is done from now on
+		k := ctxDoneKey(ctx)
+		old, has := st.cells[k].(Term)
+		if !has {
+			old = tFalse
+		}
+		st.cells[k] = fc.nameTerm("ctxdone", tOr(old, cond))
+	}
 	v := fc.havocValue(st, "recv", elem)
 	ci := fc.chanInvFor(chv)
 	if ci != nil {
